@@ -69,8 +69,10 @@ def gen_spec(rng, n_classes, order, unknown=False):
                 "components": kids, "expose": {"y": {"component": kids[0]["name"], "port": "o"}}}
 
     top = [entry(0, "t") for _ in range(rng.randrange(2, 5))]
-    if rng.random() < 0.7:
-        top.append(system(1, "n"))
+    if rng.random() < 0.8:
+        # a system anywhere in the list (first, middle, last): classes that are first met inside
+        # it (lazily imported through their tag) are used again by later top-level entries
+        top.insert(rng.randrange(0, len(top) + 1), system(1, "n"))
     for i, e in enumerate(top):
         for j in range(i):
             if rng.random() < 0.4:
@@ -98,10 +100,10 @@ def run(tier, seed, drv):
     rng = random.Random(seed)
     specs = []
     ncls = 3 if tier == "quick" else 4
-    orders = list(itertools.permutations(range(2)))  # module import orders
+    orders = list(itertools.permutations(range(2))) + [(0,), (1,)]  # module import orders (full and partial)
     for n in range(2, ncls + 1):
         for order in orders + [()]:
-            for rep in range(2 if tier == "quick" else 6):
+            for rep in range(3 if tier == "quick" else 8):
                 specs.append(gen_spec(rng, n, order) + (False,))
     for _ in range(4 if tier == "quick" else 20):
         specs.append(gen_spec(rng, 3, (0, 1), unknown=True) + (True,))
